@@ -68,11 +68,13 @@ static std::string show(const std::optional<int>& o) { return o ? std::to_string
 template<class P, class PR, size_t N> static void run_case(int id, const P& pc, const PR& pr, const char (&text)[N], const std::optional<int>* ce) {
     ++g_cases;
     std::string s(text, N - 1);
-    std::optional<int> r[6] = { pc.parse(cstring_buffer(text)), pc.parse(string_buffer(std::string(s))), pc.parse(string_view_buffer(std::string_view(s))),
-                                pr.parse(cstring_buffer(text)), pr.parse(string_buffer(std::string(s))), pr.parse(string_view_buffer(std::string_view(s))) };
-    static const char* names[6] = {"constexpr-parser/cstring", "constexpr-parser/string", "constexpr-parser/string_view", "runtime-parser/cstring", "runtime-parser/string", "runtime-parser/string_view"};
+    std::string big = s + " " + s + "\n" + s;   // the same text as a window into a longer buffer: nothing beyond the view may be read
+    std::optional<int> r[7] = { pc.parse(cstring_buffer(text)), pc.parse(string_buffer(std::string(s))), pc.parse(string_view_buffer(std::string_view(s))),
+                                pr.parse(cstring_buffer(text)), pr.parse(string_buffer(std::string(s))), pr.parse(string_view_buffer(std::string_view(s))),
+                                pc.parse(string_view_buffer(std::string_view(big).substr(0, s.size()))) };
+    static const char* names[7] = {"constexpr-parser/cstring", "constexpr-parser/string", "constexpr-parser/string_view", "runtime-parser/cstring", "runtime-parser/string", "runtime-parser/string_view", "constexpr-parser/string_view window into a longer text"};
     if (r[0]) ++g_accept;
-    for (int k = 1; k < 6; ++k) { ++g_checks; if (r[k] != r[0]) { ++g_fail; if (g_first.empty()) g_first = "case " + std::to_string(id) + ": " + names[k] + " gives " + show(r[k]) + " but " + names[0] + " gives " + show(r[0]); } }
+    for (int k = 1; k < 7; ++k) { ++g_checks; if (r[k] != r[0]) { ++g_fail; if (g_first.empty()) g_first = "case " + std::to_string(id) + ": " + names[k] + " gives " + show(r[k]) + " but " + names[0] + " gives " + show(r[0]); } }
     if (ce) { ++g_ce; ++g_checks; if (*ce != r[0]) { ++g_fail; if (g_first.empty()) g_first = "case " + std::to_string(id) + ": constant evaluation gives " + show(*ce) + ", run time gives " + show(r[0]); } }
 }
 int main() {
